@@ -96,9 +96,9 @@ func genC03(g *G, n int, out io.Writer) {
 		if g.coin(0.12) {
 			c.Config.Time = g.pick([]string{"0001-01-01T00:00:00Z", "1970-01-01T00:00:00Z", "9999-12-31T23:59:59Z"})
 		}
-		if g.coin(0.2) {
-			// an instant with a fraction of a second: the report shows whole seconds (the fraction is cut, never rounded up)
-			c.Config.Time = strings.Replace(c.Config.Time, "Z", g.pick([]string{".5Z", ".999999999Z", ".000000001Z", ".49Z"}), 1)
+		if g.coin(0.3) && len(c.Config.Time) > 19 {
+			// an instant with a fraction of a second (in any zone): the report shows whole seconds (the fraction is cut, never rounded up)
+			c.Config.Time = c.Config.Time[:19] + g.pick([]string{".5", ".999999999", ".000000001", ".49", ".75"}) + c.Config.Time[19:]
 		}
 		c.Entry = []int{2, 3, 2, 3, 0, 1}[i%6]
 		c.Debug = g.coin(0.15)
